@@ -32,25 +32,27 @@ CONSTANTS Threads,      \* API goroutines
           FIX_ERR,      \* D1 repaired: EINVAL from the MOVE_SELF clean-up is not an error, errors are sent without the lock
           FIX_RACE      \* D6 repaired: Add/Remove look at `done` again once they hold the lock
 
-VARIABLES kq, kmark, nfs, ovfd,          \* kernel: queue, mark on the file, operations done, overflow marker queued
+VARIABLES kq, kmark, nfs, ovfd,          \* kernel: queue of records [k, w], watch descriptor of the mark on the file (0: none), operations done, overflow marker queued
+          gen,                           \* the next watch descriptor the kernel hands out
           fnamed, falive,                \* the watched path still names the file; the file (inode) still exists
           fdOpen,                        \* the inotify descriptor
           mu, done, doneResp,            \* mutex owner ("free" / "rd" / thread), closed channels
           evq, evClosed, errClosed,      \* Events buffer, channels closed by the reader
-          tab,                           \* the path is in the tables
+          tab,                           \* the watch descriptor under which the path is in the tables (0: not listed)
           rd,                            \* reader: [pc, buf, cur, out, err]
           th,                            \* thread -> [pc, op, res]
           errs, closeRet                 \* ghosts: errors delivered, some Close has returned
-vars == <<kq, kmark, nfs, ovfd, fnamed, falive, fdOpen, mu, done, doneResp, evq, evClosed, errClosed, tab, rd, th, errs, closeRet>>
+vars == <<kq, kmark, nfs, ovfd, gen, fnamed, falive, fdOpen, mu, done, doneResp, evq, evClosed, errClosed, tab, rd, th, errs, closeRet>>
 fsx == <<fnamed, falive>>
+R(k, w) == [k |-> k, w |-> w]
 
 Ops == {"add", "remove", "watchlist", "close"}
 Idle == [pc |-> "idle", op |-> "none", res |-> "none"]
 
-Init == /\ kq = <<>> /\ kmark = FALSE /\ nfs = 0 /\ ovfd = FALSE /\ fdOpen = TRUE /\ fnamed = TRUE /\ falive = TRUE
+Init == /\ kq = <<>> /\ kmark = 0 /\ gen = 1 /\ nfs = 0 /\ ovfd = FALSE /\ fdOpen = TRUE /\ fnamed = TRUE /\ falive = TRUE
         /\ mu = "free" /\ done = FALSE /\ doneResp = FALSE
-        /\ evq = <<>> /\ evClosed = FALSE /\ errClosed = FALSE /\ tab = FALSE
-        /\ rd = [pc |-> "top", buf |-> <<>>, cur |-> "none", out |-> "none", err |-> "none"]
+        /\ evq = <<>> /\ evClosed = FALSE /\ errClosed = FALSE /\ tab = 0
+        /\ rd = [pc |-> "top", buf |-> <<>>, cur |-> [k |-> "none", w |-> 0], out |-> "none", err |-> "none"]
         /\ th = [t \in Threads |-> Idle] /\ errs = <<>> /\ closeRet = FALSE
 
 ---------------------------------------------------------------------------
@@ -58,21 +60,21 @@ Init == /\ kq = <<>> /\ kmark = FALSE /\ nfs = 0 /\ ovfd = FALSE /\ fdOpen = TRU
 Enq(q, r) == IF Len(q) < MaxQ THEN Append(q, r) ELSE q
 \* chmod reaches the file through any name it has; a record only if the file is watched
 FsChmod == /\ nfs < MaxFs /\ falive /\ nfs' = nfs + 1
-           /\ IF ~(fdOpen /\ kmark) THEN UNCHANGED <<kq, ovfd>>
-              ELSE IF Len(kq) < MaxQ THEN kq' = Append(kq, "ev") /\ UNCHANGED ovfd
-              ELSE IF ~ovfd THEN kq' = Append(kq, "ovf") /\ ovfd' = TRUE      \* the marker is appended once, further records are dropped
+           /\ IF ~(fdOpen /\ kmark # 0) THEN UNCHANGED <<kq, ovfd>>
+              ELSE IF Len(kq) < MaxQ THEN kq' = Append(kq, R("ev", kmark)) /\ UNCHANGED ovfd
+              ELSE IF ~ovfd THEN kq' = Append(kq, R("ovf", 0)) /\ ovfd' = TRUE      \* the marker is appended once, further records are dropped
               ELSE UNCHANGED <<kq, ovfd>>
-           /\ UNCHANGED <<kmark, fnamed, falive, fdOpen, mu, done, doneResp, evq, evClosed, errClosed, tab, rd, th, errs, closeRet>>
+           /\ UNCHANGED <<kmark, gen, fnamed, falive, fdOpen, mu, done, doneResp, evq, evClosed, errClosed, tab, rd, th, errs, closeRet>>
 \* mv path elsewhere: the file lives on under a name nobody uses here
 FsMove  == /\ nfs < MaxFs /\ fnamed /\ nfs' = nfs + 1 /\ fnamed' = FALSE
-           /\ kq' = IF fdOpen /\ kmark THEN Enq(kq, "moveself") ELSE kq
-           /\ UNCHANGED <<kmark, ovfd, falive, fdOpen, mu, done, doneResp, evq, evClosed, errClosed, tab, rd, th, errs, closeRet>>
+           /\ kq' = IF fdOpen /\ kmark # 0 THEN Enq(kq, R("moveself", kmark)) ELSE kq
+           /\ UNCHANGED <<kmark, gen, ovfd, falive, fdOpen, mu, done, doneResp, evq, evClosed, errClosed, tab, rd, th, errs, closeRet>>
 \* rm path (by its name, or - after a move - by the other name): the link count drops (IN_ATTRIB), then the inode goes
 FsDelete == /\ nfs < MaxFs /\ falive /\ nfs' = nfs + 1 /\ fnamed' = FALSE /\ falive' = FALSE
-            /\ IF fdOpen /\ kmark
-               THEN kq' = Enq(Enq(Enq(kq, "ev"), "delself"), "ignored") /\ kmark' = FALSE     \* the kernel drops the mark itself
+            /\ IF fdOpen /\ kmark # 0
+               THEN kq' = Enq(Enq(Enq(kq, R("ev", kmark)), R("delself", kmark)), R("ignored", kmark)) /\ kmark' = 0     \* the kernel drops the mark itself
                ELSE UNCHANGED <<kq, kmark>>
-            /\ UNCHANGED <<ovfd, fdOpen, mu, done, doneResp, evq, evClosed, errClosed, tab, rd, th, errs, closeRet>>
+            /\ UNCHANGED <<gen, ovfd, fdOpen, mu, done, doneResp, evq, evClosed, errClosed, tab, rd, th, errs, closeRet>>
 Fs == FsChmod \/ FsMove \/ FsDelete
 
 ---------------------------------------------------------------------------
@@ -86,12 +88,12 @@ RdRead == /\ rd.pc = "read"
              \/ /\ fdOpen /\ kq # <<>>
                 /\ \E k \in 1..Len(kq) : /\ rd' = [rd EXCEPT !.pc = "decode", !.buf = SubSeq(kq, 1, k)]
                                          /\ kq' = SubSeq(kq, k + 1, Len(kq))
-                /\ ovfd' = (ovfd /\ \E i \in 1..Len(kq') : kq'[i] = "ovf")
+                /\ ovfd' = (ovfd /\ \E i \in 1..Len(kq') : kq'[i].k = "ovf")
           /\ UNCHANGED <<kmark, nfs, fdOpen, mu, done, doneResp, evq, evClosed, errClosed, tab, th, errs, closeRet>>
 RdDecode == /\ rd.pc = "decode"
             /\ rd' = IF rd.buf = <<>> THEN [rd EXCEPT !.pc = "top"]
                      ELSE [rd EXCEPT !.cur = Head(rd.buf), !.buf = Tail(rd.buf),
-                                     !.pc = IF Head(rd.buf) = "ovf" THEN "ovfSend" ELSE "lock"]
+                                     !.pc = IF Head(rd.buf).k = "ovf" THEN "ovfSend" ELSE "lock"]
             /\ UNCHANGED <<kq, kmark, nfs, ovfd, fdOpen, mu, done, doneResp, evq, evClosed, errClosed, tab, th, errs, closeRet>>
 \* sendError(ErrEventOverflow): select { <-done ; Errors <- err }  -- the receive half is the consumer's RecvErr
 RdSendAbort == /\ rd.pc \in {"ovfSend", "errSend", "evSend"} /\ done
@@ -105,20 +107,20 @@ RdLock == /\ rd.pc = "lock" /\ mu = "free"
 RdHandle ==
   /\ rd.pc = "handle" /\ mu = "rd"
   /\ LET c == rd.cur IN
-     CASE c = "ovf" ->            \* wd -1: no watch
+     CASE c.k = "ovf" ->          \* wd -1: no watch
             /\ rd' = [rd EXCEPT !.pc = "decode", !.out = "none"] /\ mu' = "free" /\ UNCHANGED <<tab, kmark, kq>>
-       [] ~tab ->                 \* watch == nil: skip (#616)
+       [] tab = 0 \/ tab # c.w -> \* watch == nil: the record's descriptor is not (or no longer) in the tables: skip (#616)
             /\ rd' = [rd EXCEPT !.pc = "decode", !.out = "none"] /\ mu' = "free" /\ UNCHANGED <<tab, kmark, kq>>
-       [] c = "ev" ->
+       [] c.k = "ev" ->
             /\ rd' = [rd EXCEPT !.pc = "evSend", !.out = "chmod"] /\ mu' = "free" /\ UNCHANGED <<tab, kmark, kq>>
-       [] c = "ignored" ->
-            /\ tab' = FALSE /\ rd' = [rd EXCEPT !.pc = "decode", !.out = "none"] /\ mu' = "free" /\ UNCHANGED <<kmark, kq>>
-       [] c = "delself" ->
-            /\ tab' = FALSE /\ rd' = [rd EXCEPT !.pc = "evSend", !.out = "remove"] /\ mu' = "free" /\ UNCHANGED <<kmark, kq>>
-       [] c = "moveself" ->       \* w.remove(watch.path): table entry and inotify_rm_watch
-            /\ tab' = FALSE
-            /\ IF fdOpen /\ kmark
-               THEN /\ kmark' = FALSE /\ kq' = Enq(kq, "ignored")
+       [] c.k = "ignored" ->
+            /\ tab' = 0 /\ rd' = [rd EXCEPT !.pc = "decode", !.out = "none"] /\ mu' = "free" /\ UNCHANGED <<kmark, kq>>
+       [] c.k = "delself" ->
+            /\ tab' = 0 /\ rd' = [rd EXCEPT !.pc = "evSend", !.out = "remove"] /\ mu' = "free" /\ UNCHANGED <<kmark, kq>>
+       [] c.k = "moveself" ->     \* w.remove(watch.path): table entry and inotify_rm_watch
+            /\ tab' = 0
+            /\ IF fdOpen /\ kmark = tab
+               THEN /\ kmark' = 0 /\ kq' = Enq(kq, R("ignored", tab))
                     /\ rd' = [rd EXCEPT !.pc = "evSend", !.out = "rename"] /\ mu' = "free"
                ELSE \* EINVAL (mark already gone) or EBADF (descriptor closed)
                     /\ UNCHANGED <<kmark, kq>>
@@ -136,7 +138,7 @@ RdBuffer == /\ rd.pc = "evSend" /\ Len(evq) < Cap
 RdExit == /\ rd.pc = "exit"
           /\ doneResp' = TRUE /\ errClosed' = TRUE /\ evClosed' = TRUE /\ rd' = [rd EXCEPT !.pc = "gone"]
           /\ UNCHANGED <<kq, kmark, nfs, ovfd, fdOpen, mu, done, evq, tab, th, errs, closeRet>>
-Reader == (RdTop \/ RdRead \/ RdDecode \/ RdSendAbort \/ RdLock \/ RdHandle \/ RdBuffer \/ RdExit) /\ UNCHANGED fsx
+Reader == (RdTop \/ RdRead \/ RdDecode \/ RdSendAbort \/ RdLock \/ RdHandle \/ RdBuffer \/ RdExit) /\ UNCHANGED <<fsx, gen>>
 
 ---------------------------------------------------------------------------
 \* Consumer: the receiving half of the rendezvous, or a buffered receive
@@ -149,7 +151,7 @@ RecvErr == /\ rd.pc \in {"ovfSend", "errSend"}
            /\ rd' = [rd EXCEPT !.pc = IF rd.pc = "ovfSend" THEN "lock" ELSE "evSend", !.err = "none"]
            /\ mu' = IF rd.pc = "errSend" /\ mu = "rd" THEN "free" ELSE mu
            /\ UNCHANGED <<kq, kmark, nfs, ovfd, fdOpen, done, doneResp, evq, evClosed, errClosed, tab, th, closeRet>>
-Consumer == (RecvEv \/ RecvErr) /\ UNCHANGED fsx
+Consumer == (RecvEv \/ RecvErr) /\ UNCHANGED <<fsx, gen>>
 
 ---------------------------------------------------------------------------
 \* API goroutines
@@ -173,15 +175,18 @@ Cs(t) ==
      ELSE CASE o = "add" ->
                  IF ~fdOpen THEN /\ UNCHANGED <<kmark, tab, kq>> /\ Set(t, [th[t] EXCEPT !.pc = "ret", !.res = "EBADF"])
                  ELSE IF ~fnamed THEN /\ UNCHANGED <<kmark, tab, kq>> /\ Set(t, [th[t] EXCEPT !.pc = "ret", !.res = "ENOENT"])      \* the path names nothing
-                 ELSE /\ kmark' = TRUE /\ tab' = TRUE /\ UNCHANGED kq /\ Set(t, [th[t] EXCEPT !.pc = "ret", !.res = "ok"])
+                 ELSE \* inotify_add_watch: the descriptor of the file's mark, a new one if it has none
+                      /\ kmark' = (IF kmark # 0 THEN kmark ELSE gen) /\ tab' = kmark'
+                      /\ UNCHANGED kq /\ Set(t, [th[t] EXCEPT !.pc = "ret", !.res = "ok"])
             [] o = "remove" ->
-                 IF ~tab THEN UNCHANGED <<kmark, tab, kq>> /\ Set(t, [th[t] EXCEPT !.pc = "ret", !.res = "ErrNonExistentWatch"])
-                 ELSE /\ tab' = FALSE
+                 IF tab = 0 THEN UNCHANGED <<kmark, tab, kq>> /\ Set(t, [th[t] EXCEPT !.pc = "ret", !.res = "ErrNonExistentWatch"])
+                 ELSE /\ tab' = 0
                       /\ IF ~fdOpen THEN UNCHANGED <<kmark, kq>> /\ Set(t, [th[t] EXCEPT !.pc = "ret", !.res = "EBADF"])
-                         ELSE IF kmark THEN kmark' = FALSE /\ kq' = Enq(kq, "ignored") /\ Set(t, [th[t] EXCEPT !.pc = "ret", !.res = "ok"])
+                         ELSE IF kmark = tab THEN kmark' = 0 /\ kq' = Enq(kq, R("ignored", tab)) /\ Set(t, [th[t] EXCEPT !.pc = "ret", !.res = "ok"])
                          ELSE UNCHANGED <<kmark, kq>> /\ Set(t, [th[t] EXCEPT !.pc = "ret", !.res = "EINVAL"])   \* lag window (TODO in remove())
-            [] o = "watchlist" -> UNCHANGED <<kmark, tab, kq>> /\ Set(t, [th[t] EXCEPT !.pc = "ret", !.res = IF tab THEN "listed" ELSE "empty"])
+            [] o = "watchlist" -> UNCHANGED <<kmark, tab, kq>> /\ Set(t, [th[t] EXCEPT !.pc = "ret", !.res = IF tab # 0 THEN "listed" ELSE "empty"])
             [] OTHER -> FALSE
+  /\ gen' = IF th[t].op = "add" /\ ~(FIX_RACE /\ done) /\ fdOpen /\ fnamed /\ kmark = 0 THEN gen + 1 ELSE gen
   /\ UNCHANGED <<nfs, ovfd, fdOpen, done, doneResp, evq, evClosed, errClosed, rd, errs, closeRet>>
 \* Close: shared.close() takes mu
 C1(t) == /\ th[t].pc = "c1" /\ mu = "free"
@@ -190,14 +195,14 @@ C1(t) == /\ th[t].pc = "c1" /\ mu = "free"
                     ELSE done' = TRUE /\ Set(t, [th[t] EXCEPT !.pc = "c3"]) /\ UNCHANGED closeRet
          /\ UNCHANGED <<kq, kmark, nfs, ovfd, fdOpen, mu, doneResp, evq, evClosed, errClosed, tab, rd, errs>>
 C3(t) == /\ th[t].pc = "c3"
-         /\ fdOpen' = FALSE /\ kmark' = FALSE /\ kq' = <<>>      \* the instance goes away with its descriptor
+         /\ fdOpen' = FALSE /\ kmark' = 0 /\ kq' = <<>>      \* the instance goes away with its descriptor
          /\ Set(t, [th[t] EXCEPT !.pc = "c4"])
          /\ UNCHANGED <<nfs, ovfd, mu, done, doneResp, evq, evClosed, errClosed, tab, rd, errs, closeRet>>
 C4(t) == /\ th[t].pc = "c4" /\ doneResp
          /\ Set(t, [th[t] EXCEPT !.pc = "ret", !.res = "ok"]) /\ closeRet' = TRUE
          /\ UNCHANGED <<kq, kmark, nfs, ovfd, fdOpen, mu, done, doneResp, evq, evClosed, errClosed, tab, rd, errs>>
-ApiProg(t) == (Check(t) \/ Lock(t) \/ Cs(t) \/ C1(t) \/ C3(t) \/ C4(t)) /\ UNCHANGED fsx
-Api(t) == (Start(t) /\ UNCHANGED fsx) \/ ApiProg(t)
+ApiProg(t) == (((Check(t) \/ Lock(t) \/ C1(t) \/ C3(t) \/ C4(t)) /\ UNCHANGED gen) \/ Cs(t)) /\ UNCHANGED fsx
+Api(t) == (Start(t) /\ UNCHANGED <<fsx, gen>>) \/ ApiProg(t)
 
 Internal == Reader \/ \E t \in Threads : Api(t)
 Next == Internal \/ Consumer \/ Fs
@@ -220,7 +225,7 @@ ResultsOK == \A t \in Threads : th[t].res \notin {"EBADF"}
 \* select{} picked the Errors case although done was closed is tolerated: the watcher is being closed.)
 ErrsGenuine == \A i \in 1..Len(errs) : errs[i] \in {"overflow", "EBADF"}
 \* C13: Close releases the descriptor, the kernel watches and the goroutine
-Released == closeRet => (~fdOpen /\ ~kmark /\ rd.pc = "gone")
+Released == closeRet => (~fdOpen /\ kmark = 0 /\ rd.pc = "gone")
 \* the mutex is never left locked by someone who is gone
 LockSane == mu \in {"free", "rd"} \cup Threads /\ (rd.pc = "gone" => mu # "rd")
 =============================================================================
